@@ -89,7 +89,7 @@ theorem cmp_ty {t : DataType} {op : String} {a b : Expr} (ho : isCmp op = true) 
 
 theorem not_tys {t : DataType} {a : Expr} (hw : WT (.un t Gen.NOT_OPERATOR a)) : t = T.BOOL ∧ a.ty = T.BOOL := by
   obtain ⟨d, hd, ht, ha, hs⟩ := hw
-  have : d = ⟨"not", 1, 1⟩ := by
+  have : d = ⟨"not", T.BOOL, T.BOOL⟩ := by
     have h2 : findUn "not" = some d := hd
     revert h2; simp only [findUn, Gen.unOps]; intro h2; simp at h2; exact h2.symm
   subst this
@@ -97,7 +97,7 @@ theorem not_tys {t : DataType} {a : Expr} (hw : WT (.un t Gen.NOT_OPERATOR a)) :
 
 theorem neg_tys {t : DataType} {a : Expr} (hw : WT (.un t "-" a)) : t = T.NUMBER ∧ a.ty = T.NUMBER := by
   obtain ⟨d, hd, ht, ha, hs⟩ := hw
-  have : d = ⟨"-", 2, 2⟩ := by
+  have : d = ⟨"-", T.NUMBER, T.NUMBER⟩ := by
     revert hd; simp only [findUn, Gen.unOps]; intro h2; simp at h2; exact h2.symm
   subst this
   exact ⟨ht, atomic_eq number_atomic hs (WT_ne _ ha)⟩
@@ -108,13 +108,13 @@ theorem mkBin_ty_logic {op : String} {a b r : Expr} (ho : isLogic op = true) (h 
   obtain ⟨d, hd, hr⟩ := mkBin_ty h; rw [hr]; exact (findBin_logic ho hd).1
 theorem mkNot_ty {a r : Expr} (h : mkNot a = .ok r) : r.ty = T.BOOL := by
   obtain ⟨d, hd, hr⟩ := mkUn_ty h
-  have : d = ⟨"not", 1, 1⟩ := by
+  have : d = ⟨"not", T.BOOL, T.BOOL⟩ := by
     have h2 : findUn "not" = some d := hd
     revert h2; simp only [findUn, Gen.unOps]; intro h2; simp at h2; exact h2.symm
   subst this; exact hr
 theorem mkMinus_ty {a r : Expr} (h : mkMinus a = .ok r) : r.ty = T.NUMBER := by
   obtain ⟨d, hd, hr⟩ := mkUn_ty h
-  have : d = ⟨"-", 2, 2⟩ := by
+  have : d = ⟨"-", T.NUMBER, T.NUMBER⟩ := by
     have h2 : findUn "-" = some d := hd
     revert h2; simp only [findUn, Gen.unOps]; intro h2; simp at h2; exact h2.symm
   subst this; exact hr
